@@ -391,7 +391,10 @@ def run_case(c, case):
             # a reported failure: fine unless the oracle certifies a determinate model
             lin = _linearize(case, m, 0, variants_params[0])
             cl = linre.classify(lin) if lin is not None else {"certified": False}
-            if cl.get("certified") and cl.get("verdict") == "determinate":
+            if cl.get("certified") and cl.get("verdict") == "determinate" and not cl.get("n_unit"):
+                # (with roots on the unit circle -- here 1 - 2e-16, an accidental complex pair -- irispie may refuse with
+                # "inconsistency in classification of unit roots; increase the tolerance": a reported failure, not a wrong
+                # answer, and the statement only speaks about models that were solved)
                 c.violation(f"solve:raised-on-determinate-model:{type(exc).__name__}", f"{type(exc).__name__}: {str(exc)[:200]}", detail={"oracle": cl.get("moduli")})
             else:
                 c.inconc("solve-raised-on-non-determinate-or-uncertified-model")
